@@ -232,6 +232,9 @@ func (R *Repository) checkCrl(certificate *x509.Certificate, identifier string) 
 		repositoryEntry.entryLock.RLock()
 		defer repositoryEntry.entryLock.RUnlock()
 		if repositoryEntry.Loaded {
+			if repositoryEntry.CRLStore == nil {
+				return nil, fmt.Errorf("could not get revocation status from repository: crl store is not available")
+			}
 			status, err := repositoryEntry.CRLStore.GetCertRevocationStatus(issuerRDNSequence, certificate.SerialNumber)
 			if err != nil {
 				return nil, fmt.Errorf("could not get revocation status from repository: %v", err)
